@@ -199,6 +199,24 @@ func c14Gates(r *core.Report) {
 				}
 			}
 			r.Check(okErr, rule, fmt.Sprintf("%s#single-frame-hash-mismatch-fails@%d", cf.Key, n), pos(r, c), "a checksum mismatch on the single-frame path returns an error", "a checksum mismatch on the single-frame path does not fail")
+			// the verification is skipped only when no checksum is recorded: no condition on the checksum's VALUE guards it
+			if len(c.Args) == 2 {
+				if ho := core.ObjOf(ci, c.Args[1]); ho != nil {
+					badCond := ""
+					for _, fc := range cg.FactsAt(nd) {
+						if fc.Tag == nil && core.Mentions(ci, fc.Expr, ho) {
+							badCond = core.ExprStr(fc.Expr)
+						}
+					}
+					for _, d := range cg.Dominators(nd) {
+						if d.Kind == core.KEdge && d.Ast != nil && core.Mentions(ci, d.Ast, ho) {
+							badCond = core.ExprStr(d.Ast)
+						}
+					}
+					r.Check(badCond == "", rule, fmt.Sprintf("%s#verification-depends-on-presence-only@%d", cf.Key, n), pos(r, c), "the checksum is verified whenever one is recorded, whatever its value",
+						"the verification is skipped depending on the checksum's value ["+badCond+"]: a payload whose recorded checksum is 0 (e.g. the empty payload) is accepted without verification")
+				}
+			}
 		}
 		if n == 0 {
 			r.Violation(rule, cf.Key+"#single-frame-hash", posP(r, cf.Pos()), "the single-frame fast path uses the payload bytes without verifying a recorded checksum")
